@@ -82,3 +82,16 @@ _P["C13"] = {
                    "(state-passing model of the write-backs of length fields, idempotence of norm); correspondence on random op sequences of length 2..8.",
     "trusted_base": _ENC_TRUSTED, "assumptions": ["Len() of NXActionCTNAT writes the rounded length back; the model folds that into MarshalBinary's write-back (same observable results)"],
 }
+
+_P["C02"] = {
+    "explanation": "Spec/Walk.v: an independent decoder of the OF1.3/Nicira wire grammar (declared lengths, zero padding, legal codes, exact end); "
+                   "theorems in Properties/C02.v; every encoding the library produces for a random API recipe is walked by it.",
+    "trusted_base": _ENC_TRUSTED + ["Spec/Walk.v tables as a faithful transcription of OpenFlow 1.3.5 section 7, OVS nicira-ext.h and the ONF bundle extension (written without access to the documents)"],
+    "assumptions": [],
+}
+_P["C03"] = {
+    "explanation": "The independent decoder of Spec/Walk.v recovers from the library's bytes exactly the value the API calls built (every fixed field, match field "
+                   "with/without mask, instruction, action, bucket, NAT optional parts, learn specs, list order); theorems in Properties/C03.v.",
+    "trusted_base": _ENC_TRUSTED + ["Spec/Walk.v tables (see C02)"],
+    "assumptions": ["the expected value is the model's built value (its fields come from the recipe's arguments by position)"],
+}
